@@ -105,9 +105,11 @@ class Env:
         self.mappings = {}
         for m in r.sample(["M", "RegionMap", "x€y"], r.randint(0, 2)):
             self.mappings[m] = {}
-            for k1 in r.sample(["k1", "eu-west-1", "prod", "a"], r.randint(1, 3)):
+            # keys spelled like booleans: the resolver renders "True" as "true" before Fn::FindInMap looks the key up, and the key must
+            # still be found (finding F31); two spellings of the same boolean in one level: the exact one wins, else the first
+            for k1 in r.sample(["k1", "eu-west-1", "prod", "a", "True", "FALSE", "true"], r.randint(1, 3)):
                 self.mappings[m][k1] = {}
-                for k2 in r.sample(["s", "l", "b", "v1"], r.randint(1, 3)):
+                for k2 in r.sample(["s", "l", "b", "v1", "False", "TRUE"], r.randint(1, 3)):
                     self.mappings[m][k1][k2] = self.mapping_leaf()
         self.conds = {c: r.random() < 0.5 for c in r.sample(["C1", "C2", "IsProd", "é"], r.randint(0, 3))}
 
@@ -204,6 +206,10 @@ class ExprGen:
                 m = r.choice(ms)
                 k1 = r.choice(list(self.env.mappings[m]) + ["nokey"])
                 k2 = r.choice(list(self.env.mappings[m].get(k1, {"s": 0})) + ["nokey"])
+                if r.random() < 0.25:
+                    k1 = r.choice([k1.swapcase(), k1.lower(), k1.upper(), "True", "false"])
+                if r.random() < 0.2:
+                    k2 = r.choice([k2.swapcase(), k2.lower(), "TRUE", "False"])
             else:
                 m, k1, k2 = "NoMap", "k1", "s"
             def wrap(x):
